@@ -1,0 +1,19 @@
+//go:build verif
+
+package inproc
+
+// Verification hooks (build tag verif only).
+
+// VerifListeners returns the number of registered inproc listening addresses.
+func VerifListeners() int {
+	listeners.mx.Lock()
+	defer listeners.mx.Unlock()
+	return len(listeners.byAddr)
+}
+
+// VerifReset forgets all registered listeners (used between model-checking executions).
+func VerifReset() {
+	listeners.mx.Lock()
+	listeners.byAddr = make(map[string]*listener)
+	listeners.mx.Unlock()
+}
